@@ -130,6 +130,10 @@ def run(ctx):
     for k in range(ncases):
         kind, wn, w = gen_native(rng)
         style, tc, tw = gen_target(rng, wn, w)
+        # one width for every target bin, given as a single number (the constructor accepts that)
+        scalar_w = tw is not None and rng.random() < 0.12
+        if scalar_w:
+            tw = np.full(len(tc), float(tw[0]))
         n = len(wn)
         f = np.array([rng.uniform(-1, 1) * 10 ** rng.uniform(-6, 2) for _ in range(n)])
         if rng.random() < 0.1:
@@ -150,7 +154,7 @@ def run(ctx):
         tw_in = None if tw is None else tw[tperm]
         # ---- implementation
         try:
-            binner = FluxBinner(tc_in, tw_in)
+            binner = FluxBinner(tc_in, float(tw_in[0]) if scalar_w else tw_in)
             spec = np.vstack([f_in, 2 * f_in + 1]) if twod else f_in
             with np.errstate(all='ignore'):
                 if twod:
@@ -181,7 +185,7 @@ def run(ctx):
         ctx.count('shuffled' if shuffled else 'sorted')
         ctx.count('2d' if twod else '1d')
         ctx.count('auto_native_width' if w is None else 'explicit_native_width')
-        ctx.count('auto_target_width' if tw is None else 'explicit_target_width')
+        ctx.count('auto_target_width' if tw is None else ('scalar_target_width' if scalar_w else 'explicit_target_width'))
 
     results = C.run_cases('C05_flux', HEADER, exprs, shard=40)
     for mt, res in zip(metas, results):
